@@ -186,7 +186,7 @@ pub fn run_c07(ctx: &mut Ctx) {
         let k = ctx.rng.random_range(1..=6);
         let lens: Vec<u64> = (0..k).map(|_| if ctx.rng.random_bool(0.15) { 0 } else { ctx.rng.random_range(1..=if i % 7 == 0 { 30 } else { 6 }) }).collect();
         let s = ctx.rng.random_range(0..3);
-        let seed = ctx.rng.random_range(0..1000);
+        let seed = crate::gen::seed(&mut ctx.rng);
         emit(ctx, s, &lens, seed);
     }
     std::fs::remove_dir_all(tmp()).ok();
